@@ -81,7 +81,8 @@ def _damages(data, sibling):
     n = len(data)
     out = [("deleted", None), ("emptied", b""), ("garbage", b"\x00\xffthis is not a file of this kind{{{" * 3),
            ("truncated-1", data[:1]), ("truncated-quarter", data[: max(2, n // 4)]), ("truncated-half", data[: n // 2]),
-           ("truncated-minus1", data[:-1]), ("truncated-minus-footer", data[: max(1, n - 12)])]
+           ("truncated-minus1", data[:-1]), ("truncated-minus-footer", data[: max(1, n - 12)]),
+           ("truncated-minus24", data[: max(1, n - 24)]), ("truncated-minus60", data[: max(1, n - 60)])]
     for name, pos in (("flip-head", min(3, n - 1)), ("flip-middle", n // 2), ("flip-tail", n - 2)):
         b = bytearray(data)
         b[pos] ^= 0xFF
@@ -136,7 +137,7 @@ def run(ctx, model_ok):
     rep.rule = ("a table with 4 commits (append, a 3-file transaction, append, then a delete dropping one whole manifest and PART of the 3-file one, so a rewritten manifest carries survivors): every file reachable from the current snapshot "
                 "(current metadata file, manifest list, each manifest, each data file) × 12 damage classes (delete, empty, garbage, 5 truncations, "
                 "3 byte flips, swap with a sibling of the same kind) + a transient error on the first touch × 7 read APIs / options. "
-                "non-trivial = the damaged file is touched by the API and the damage makes it unparseable (or the checksum applies).")
+                "the data-file damages again through a handle that had already read the table once. non-trivial = the damaged file is touched by the API and the damage makes it unparseable (or the checksum applies).")
     base = scratch_dir("c14-")
     model_rows = []
     try:
@@ -220,6 +221,39 @@ def run(ctx, model_ok):
                         if status != "altered" or (kind == "data" and chk == "1"):     # unverified altered bytes: outside the property
                             model_rows.append((f"rd.outcome {kind} {status} {'1' if touches else '0'} {chk}",
                                                "raise" if outcome.startswith("raise") else ("same" if got == clean[api] else "different"), case))
+        # ---- a WARM handle: it has already read (and verified) every file once; the damage happens afterwards
+        for rel in [r_ for r_ in targets if _kind(r_) == "data"]:
+            data = store.get(rel)
+            sib = next((store.get(o) for o in by_kind["data"] if o != rel), None)
+            for dname, dbytes in _damages(data, sib):
+                if dname not in ("deleted", "flip-middle", "flip-tail", "swapped-with-sibling", "truncated-half", "garbage"):
+                    continue
+                for api in ("scan", "scan_batches", "iter_records", "scan_parallel"):
+                    shutil.rmtree(path)
+                    shutil.copytree(snap, path, copy_function=shutil.copy2)
+                    hw = tablekit.load(path)
+                    APIS[api](hw)                      # warm
+                    full = os.path.join(path, rel)
+                    if dname == "deleted":
+                        os.remove(full)
+                    else:
+                        with open(full, "wb") as f:
+                            f.write(dbytes)
+                    if isinstance(dbytes, bytes) and dbytes == data:
+                        continue
+                    rep.evaluations += 1
+                    rep.nontrivial(["c14-warm", dname, api, rel])
+                    case = {"kind": "damage-after-first-read", "file_kind": "data", "damage": dname, "api": api, "file": rel}
+                    try:
+                        got = APIS[api](hw)
+                    except Exception:       # noqa: BLE001
+                        continue
+                    if got == clean[api]:
+                        rep.violate("C14:damage-ignored:data:" + dname, f"{api} through a handle that had read the table before: data file {dname} afterwards, "
+                                    f"yet the undamaged answer came back", case)
+                    else:
+                        rep.violate("C14:partial-or-altered-rows:data:" + dname, f"{api} through a handle that had read the table before: data file {dname} "
+                                    f"afterwards: returned {len(got)} rows instead of raising", case)
         if model_ok and model_rows:
             replies = driver.ask([r for r, _i, _c in model_rows])
             for (rq, impl, case), m in zip(model_rows, replies):
